@@ -132,6 +132,7 @@ func checkC07(c *Check) {
 	c.fsmContracts("C07.3 fsm-effects")
 	c.validateArguments("C07.1 equal-identifiers-admitted")
 	c.inboundAdmission("C07.1 late-inbound-admitted")
+	c.capturedVarDiscipline("C07.1 every-listener-served")
 	c.specConstants("C07.3 spec-constants", "NOTIF_CODE_CEASE")
 	fn := p.Fn("peer.handleStateTransition")
 	if fn == nil || len(fn.Params) != 3 {
